@@ -784,7 +784,7 @@ def corpus():
 def check(run: Run, lean: dict) -> int:
     common.use_repo()
     install_unraisable_hook()
-    n = 300 if run.tier == "quick" else 12000
+    n = run.budget(300, 12000)
     run.extra["rule"] = (
         "random Legal edit histories (4-16 calls) over 12 seed documents; the program holds a random subset of the nodes "
         "(fraction 0/0.15/0.3/0.6/1, incl. text nodes without their element, appended text nodes without their predecessors) "
